@@ -464,7 +464,7 @@ def eliminate_param_copies(fn: ast.FunctionDef) -> int:
         st = fn.body[i]
         if isinstance(st, (ast.Assign, ast.AnnAssign)) and getattr(st, "value", None) is not None:
             tgt = st.targets[0] if isinstance(st, ast.Assign) and len(st.targets) == 1 else (st.target if isinstance(st, ast.AnnAssign) else None)
-            if isinstance(tgt, ast.Name) and isinstance(st.value, ast.Name) and st.value.id in params and tgt.id not in params:
+            if isinstance(tgt, ast.Name) and isinstance(st.value, ast.Name) and st.value.id in params and tgt.id not in params and st.value.id not in ("self", "cls"):
                 v, p_ = tgt.id, st.value.id
                 before = any(isinstance(n, ast.Name) and n.id == v for b in fn.body[:i] for n in ast.walk(b))
                 after_p = any(isinstance(n, ast.Name) and n.id == p_ for b in fn.body[i + 1:] for n in ast.walk(b))
